@@ -276,7 +276,12 @@ def monotonic_rule(ctx, repo):
             tg = ast.unparse(n.target)
             it = ast.unparse(n.iter)
             if tg in ('d', 'count, duration'):
-                src_ok = any(x in it for x in ('timings.pulses', 'timings.one', 'timings.zero', 'b_timings[', 'bt['))
+                allowed = ('timings.pulses', 'timings.one', 'timings.zero', 'b_timings[', 'bt[')
+                src_ok = any(x in it for x in allowed)
+                if not src_ok and isinstance(n.iter, ast.Name):
+                    # a local that holds one of those sequences
+                    vals = [ast.unparse(a.value) for a in ast.walk(ge) if isinstance(a, ast.Assign) and any(isinstance(t, ast.Name) and t.id == n.iter.id for t in a.targets)]
+                    src_ok = bool(vals) and all(any(x in v for x in allowed) for v in vals)
                 if src_ok:
                     ctx.ok({'loop': 'for %s in %s' % (tg, it[:50])})
                 else:
